@@ -409,10 +409,10 @@ TASKS[-1].cover = False
 
 WALK = Bounded(
     "interleavings_against_exchange_model", "c17_walk", {"depth": 10, "walks": 300, "walk_len": 30},
-    {"depth": 12, "walks": 5000, "walk_len": 60},
+    {"depth": 13, "walks": 50000, "walk_len": 60},
     "the real order object against an exchange environment written from the FIX 4.4 order state matrices: every "
     "interleaving of client actions (new / cancel / replace) and exchange actions (ack, reject, partial / full fill, "
-    "cancel, replace, reject of a request, expire, suspend / resume) up to 10 (thorough: 12) events exhaustively, then "
+    "cancel, replace, reject of a request, expire, suspend / resume) up to 10 (thorough: 13) events exhaustively, then "
     "seeded random walks; fractional price / quantity (0.1+0.2, 10/3), fractional fills, exact comparison; "
     "at every step K1, request building when permitted, ClOrdID freshness and OrigClOrdID = live id, at quiescence "
     "status / quantities / price equal the exchange's")
